@@ -141,6 +141,46 @@ theorem rsOctU32_padZeros (w n : Nat) (hn : n < 4294967296) : rsOctU32 (padZeros
     rw [hp] at hall hv
     simp [hc, hall, hv, hn]
 
+/-- The strict mode token (Python and Rust since 5d5709a) on the token dulwich writes. -/
+theorem strictOct_padZeros (w n : Nat) (hn : n < 4294967296) : strictOct (padZeros w (natToOct n)) = some n := by
+  have hd := padZeros_isDig w n
+  have hne : padZeros w (natToOct n) ≠ [] := by
+    unfold padZeros natToOct natToBase
+    intro h
+    exact natToBaseAux_ne_nil 8 n n (List.append_eq_nil_iff.mp h).2
+  have hall : allOct (padZeros w (natToOct n)) = true := by
+    unfold padZeros
+    have rep : ∀ k, allOct (List.replicate k 48 ++ natToOct n) = true := by
+      intro k
+      induction k with
+      | zero => simpa [natToOct, natToBase] using allOct_natToBaseAux (n + 1) n
+      | succ k ih => simp only [List.replicate_succ, List.cons_append, allOct, ih]; decide
+    exact rep _
+  have hv : octVal (padZeros w (natToOct n)) 0 = n := by
+    have h1 := octVal_eq_parseDigits _ 0 false hall hne
+    have h2 := pyInt_padZeros w n
+    rw [pyInt_dig 8 _ hd, h1] at h2
+    have h3 : ((octVal (padZeros w (natToOct n)) 0 : Nat) : Int) = (n : Int) := by simpa using h2
+    omega
+  have hm : OGen.treeModeMax = 4294967295 := rfl
+  unfold strictOct
+  have he : (padZeros w (natToOct n)).isEmpty = false := by
+    cases hp : padZeros w (natToOct n) with
+    | nil => exact absurd hp hne
+    | cons c r => rfl
+  simp [he, hall, hv, hm]
+  omega
+
+theorem pyModeToken_padZeros (w n : Nat) (hn : n < 4294967296) :
+    pyModeToken (padZeros w (natToOct n)) = some (n : Int) := by
+  have : OGen.pyModeStrict = true := rfl
+  simp [pyModeToken, this, strictOct_padZeros w n hn]
+
+theorem rsModeToken_padZeros (w n : Nat) (hn : n < 4294967296) :
+    rsModeToken (padZeros w (natToOct n)) = some (n : Int) := by
+  have : OGen.rsRejectsPlus = true := rfl
+  simp [rsModeToken, this, strictOct_padZeros w n hn]
+
 /-! ### parse ∘ serialize -/
 
 /-- A tree entry dulwich can write and read back: non-negative mode, no NUL in the name, the id is
@@ -155,8 +195,8 @@ theorem fmtOct_nonneg (w : Nat) (m : Int) (h : 0 ≤ m) : fmtOct w m = padZeros 
 
 theorem parseTreeAux_serialize (pm : Bytes → Option Int) (shaLen : Nat)
     (hlen : 2 * shaLen ∈ OGen.hexLens)
-    (hpm : ∀ n : Nat, (pm = pyInt 8 ∨ n < 4294967296) → pm (padZeros OGen.treeModeWidth (natToOct n)) = some (n : Int)) :
-    ∀ (es : List Entry), (∀ e ∈ es, WFEntry shaLen e ∧ (pm = pyInt 8 ∨ e.mode < 4294967296)) →
+    (hpm : ∀ n : Nat, n < 4294967296 → pm (padZeros OGen.treeModeWidth (natToOct n)) = some (n : Int)) :
+    ∀ (es : List Entry), (∀ e ∈ es, WFEntry shaLen e ∧ e.mode < 4294967296) →
     ∃ bs, serializeTree es = .ok bs ∧ es.length ≤ bs.length ∧
       ∀ f, es.length ≤ f → parseTreeAux pm shaLen f bs = .ok es := by
   intro es
@@ -184,7 +224,7 @@ theorem parseTreeAux_serialize (pm : Bytes → Option Int) (shaLen : Nat)
         intro h
         exact natToBaseAux_ne_nil 8 _ _ (List.append_eq_nil_iff.mp h).2
       have hmode' : pm (padZeros OGen.treeModeWidth (natToOct e.mode.toNat)) = some e.mode := by
-        have := hpm e.mode.toNat (by rcases hmode with h | h; exact Or.inl h; right; omega)
+        have := hpm e.mode.toNat (by omega)
         rw [this]; congr 1; omega
       rw [parseTreeAux]
       have hnil : (padZeros OGen.treeModeWidth (natToOct e.mode.toNat) ++ [32] ++ e.name ++ [0] ++ raw ++ bs).isEmpty = false := by
@@ -379,9 +419,9 @@ theorem u8_lt_asymm (x y : UInt8) (h : x < y) : ¬ y < x := by
   have lx := @UInt8.lt_iff_toNat_lt
   rw [lx] at *; omega
 
-theorem keyLe_eq_rsLe_aux (ma mb : Int) : ∀ (an bn : Bytes), CleanName an → CleanName bn →
+theorem keyLe_eq_rsLeOld_aux (ma mb : Int) : ∀ (an bn : Bytes), CleanName an → CleanName bn →
     bytesLe (if rsIsDir ma then an ++ [47] else an) (if rsIsDir mb then bn ++ [47] else bn)
-      = (cmpWithSuffix ma an mb bn != .gt) := by
+      = (cmpWithSuffixOld ma an mb bn != .gt) := by
   have t1 : OGen.rsDirTerm = 47 := rfl
   have t2 : OGen.rsFileTerm = 0 := rfl
   have z47 : (0 : UInt8) < 47 := by decide
@@ -392,7 +432,7 @@ theorem keyLe_eq_rsLe_aux (ma mb : Int) : ∀ (an bn : Bytes), CleanName an → 
     intro bn _ hb
     cases bn with
     | nil =>
-      simp only [cmpWithSuffix, rsTerm, t1, t2, List.nil_append]
+      simp only [cmpWithSuffixOld, rsTerm, t1, t2, List.nil_append]
       cases rsIsDir ma <;> cases rsIsDir mb <;> simp [bytesLe, cmpByte, z47, n470]
     | cons y ys =>
       have hy0 : (0 : UInt8) ≠ y := fun e => hb.1 (by simp [e])
@@ -401,7 +441,7 @@ theorem keyLe_eq_rsLe_aux (ma mb : Int) : ∀ (an bn : Bytes), CleanName an → 
         rcases u8_lt_or 0 y hy0 with h | h
         · exact h
         · exact absurd h (by rw [UInt8.lt_iff_toNat_lt]; simp)
-      simp only [cmpWithSuffix, rsTerm, t1, t2, List.nil_append]
+      simp only [cmpWithSuffixOld, rsTerm, t1, t2, List.nil_append]
       cases rsIsDir ma <;> cases rsIsDir mb <;> simp only [Bool.false_eq_true, if_false, if_true, List.cons_append]
       · simp [bytesLe, cmpByte, h0y]
       · simp [bytesLe, cmpByte, h0y]
@@ -422,7 +462,7 @@ theorem keyLe_eq_rsLe_aux (ma mb : Int) : ∀ (an bn : Bytes), CleanName an → 
     have hxs : CleanName xs := ⟨fun h => ha.1 (List.mem_cons_of_mem _ h), fun h => ha.2 (List.mem_cons_of_mem _ h)⟩
     cases bn with
     | nil =>
-      simp only [cmpWithSuffix, rsTerm, t1, t2]
+      simp only [cmpWithSuffixOld, rsTerm, t1, t2]
       cases rsIsDir ma <;> cases rsIsDir mb <;> simp only [Bool.false_eq_true, if_false, if_true, List.cons_append, List.nil_append]
       · simp [bytesLe, cmpByte, h0x, u8_lt_asymm _ _ h0x]
       · rcases u8_lt_or x 47 hx47 with h | h
@@ -435,7 +475,7 @@ theorem keyLe_eq_rsLe_aux (ma mb : Int) : ∀ (an bn : Bytes), CleanName an → 
     | cons y ys =>
       have hys : CleanName ys := ⟨fun h => hb.1 (List.mem_cons_of_mem _ h), fun h => hb.2 (List.mem_cons_of_mem _ h)⟩
       have := ih ys hxs hys
-      simp only [cmpWithSuffix]
+      simp only [cmpWithSuffixOld]
       by_cases h1 : x < y
       · cases rsIsDir ma <;> cases rsIsDir mb <;> simp [bytesLe, h1]
       · by_cases h2 : y < x
@@ -446,13 +486,74 @@ theorem keyLe_eq_rsLe_aux (ma mb : Int) : ∀ (an bn : Bytes), CleanName an → 
 
 theorem isDir_eq_rsIsDir (m : Int) : isDir m = rsIsDir m := rfl
 
-/-- **Python's `key_entry` order is git's `base_name_compare` order** (as transliterated by the Rust
-`cmp_with_suffix`) on entries whose names contain neither NUL nor `/`. -/
-theorem keyLe_eq_rsLe (a b : Entry) (ha : CleanName a.name) (hb : CleanName b.name) : keyLe a b = rsLe a b := by
+/-- The OLD Rust comparator (one byte past the common prefix) agrees with Python's `key_entry` order only
+on entries whose names contain neither NUL nor `/`. -/
+theorem keyLe_eq_rsLeOld (a b : Entry) (ha : CleanName a.name) (hb : CleanName b.name) : keyLe a b = rsLeOld a b := by
   have d : OGen.dirSuffix = 47 := rfl
-  unfold keyLe rsLe keyEntry
+  unfold keyLe rsLeOld keyEntry
   rw [isDir_eq_rsIsDir, isDir_eq_rsIsDir, d]
-  exact keyLe_eq_rsLe_aux a.mode b.mode a.name b.name ha hb
+  exact keyLe_eq_rsLeOld_aux a.mode b.mode a.name b.name ha hb
+
+theorem bytesLe_eq_cmpBytes : ∀ (u v : Bytes), bytesLe u v = (cmpBytes u v != .gt) := by
+  intro u
+  induction u with
+  | nil => intro v; cases v <;> simp [bytesLe, cmpBytes]
+  | cons x xs ih =>
+    intro v
+    cases v with
+    | nil => simp [bytesLe, cmpBytes]
+    | cons y ys =>
+      simp only [bytesLe, cmpBytes]
+      by_cases h1 : x < y
+      · simp [h1]
+      · by_cases h2 : y < x
+        · simp [h1, h2]
+        · simp only [h1, h2, if_false]
+          exact ih ys
+
+/-- "common prefix first, then the chained rests" is plain lexicographic comparison of the chained strings -/
+theorem cmpPrefixThenRest : ∀ (an bn sa sb : Bytes),
+    (match cmpBytes (an.take (min an.length bn.length)) (bn.take (min an.length bn.length)) with
+     | .eq => cmpBytes (an.drop (min an.length bn.length) ++ sa) (bn.drop (min an.length bn.length) ++ sb)
+     | c => c) = cmpBytes (an ++ sa) (bn ++ sb) := by
+  intro an
+  induction an with
+  | nil => intro bn sa sb; simp [cmpBytes]
+  | cons x xs ih =>
+    intro bn sa sb
+    cases bn with
+    | nil => simp [cmpBytes]
+    | cons y ys =>
+      have hm : min (x :: xs).length (y :: ys).length = min xs.length ys.length + 1 := by
+        simp only [List.length_cons]; omega
+      rw [hm]
+      simp only [List.take_succ_cons, List.drop_succ_cons, List.cons_append, cmpBytes]
+      by_cases h1 : x < y
+      · simp [h1]
+      · by_cases h2 : y < x
+        · simp [h1, h2]
+        · simp only [h1, h2, if_false]
+          exact ih ys sa sb
+
+theorem cmpWithSuffix_eq_lex (ma : Int) (an : Bytes) (mb : Int) (bn : Bytes) :
+    cmpWithSuffix ma an mb bn = cmpBytes (an ++ rsSuffix ma) (bn ++ rsSuffix mb) := by
+  have : OGen.rsCmpWhole = true := rfl
+  simp only [cmpWithSuffix, this, if_true, cmpWithSuffixNew]
+  exact cmpPrefixThenRest an bn _ _
+
+theorem keyEntry_eq_suffix (e : Entry) : keyEntry e = e.name ++ rsSuffix e.mode := by
+  have d : OGen.dirSuffix = 47 := rfl
+  have s1 : OGen.rsDirSuffix = [47] := rfl
+  have s2 : OGen.rsFileSuffix = [] := rfl
+  unfold keyEntry rsSuffix
+  rw [isDir_eq_rsIsDir]
+  cases rsIsDir e.mode <;> simp [d, s1, s2]
+
+/-- **Python's `key_entry` order is the order of the Rust `cmp_with_suffix`** (git's tree order: names as
+bytes, a directory's name counting as `name/`) — for every pair of entries, whatever bytes the names hold. -/
+theorem keyLe_eq_rsLe (a b : Entry) : keyLe a b = rsLe a b := by
+  unfold keyLe rsLe
+  rw [keyEntry_eq_suffix, keyEntry_eq_suffix, cmpWithSuffix_eq_lex, bytesLe_eq_cmpBytes]
 
 theorem insertBy_congr (le1 le2 : Entry → Entry → Bool) (x : Entry) : ∀ l, (∀ y ∈ l, le1 x y = le2 x y) →
     insertBy le1 x l = insertBy le2 x l := by
